@@ -113,24 +113,161 @@ pub fn check_trace(events: &[Event], train_tags: &[u64], val_tags: Option<&[u64]
     Ok(())
 }
 
+/// Equivalent runs on architectures the twin trainer does not model (feedback blocks with and
+/// without bias, skip and loop connections): with plain SGD (stateless; the step number is not
+/// used) one learn() call over G groups and E epochs must leave exactly the weights of E*G
+/// learn() calls that each process one group - every group gets one step on the sum of ITS
+/// samples' gradients at the weights held before that step, nothing carried over between groups.
+fn split_runs(seed: u64, idx: u64) -> Out {
+    let mut rng = Rng::stream(seed, "split_runs", idx);
+    let mut o = NetOpts::standard();
+    o.max_depth = 3;
+    o.min_depth = 2;
+    o.max_count = 24;
+    o.max_extent = 4;
+    o.end_dense = Some(*rng.pick(&[Act::Linear, Act::Tanh, Act::Sigmoid]));
+    let mut cfg = random_net(&mut rng, &o);
+    let mut structure = Vec::new();
+    if idx % 4 != 3 && insert_block(&mut rng, &mut cfg, 3) {
+        structure.push("block");
+    }
+    if let Ok(sh) = cfg.shapes() {
+        let nl = cfg.layers.len();
+        let plain = |l: &LCfg| !matches!(l, LCfg::Feedback { .. });
+        if idx % 3 == 1 {
+            let c: Vec<(usize, usize)> = (0..nl).flat_map(|a| (a + 1..nl).map(move |b| (a, b))).filter(|(a, b)| sh[*a].0.count() == sh[*b].0.count() && plain(&cfg.layers[*a]) && plain(&cfg.layers[*b])).collect();
+            if !c.is_empty() {
+                cfg.skips = vec![*rng.pick(&c)];
+                cfg.skipacc = Acc::Add;
+                structure.push("skip");
+            }
+        }
+        if idx % 3 == 2 {
+            let c: Vec<usize> = (0..nl.saturating_sub(1)).filter(|b| sh[*b].0 == sh[*b].1 && !sh[*b].2 && plain(&cfg.layers[*b]) && !matches!(cfg.layers[*b], LCfg::Pool { .. })).collect();
+            if !c.is_empty() {
+                let b = *rng.pick(&c);
+                cfg.loops = vec![(b, b, rng.range(1, 2), rng.bool())];
+                cfg.loopacc = *rng.pick(&[Acc::Add, Acc::Mean]);
+                structure.push("loop");
+            }
+        }
+    }
+    let outputs = match cfg.layers.last().unwrap() {
+        LCfg::Dense { n, .. } => *n,
+        _ => 1,
+    };
+    let n = rng.range(2, 8);
+    let batch = rng.range(1, n);
+    let epochs = rng.range(1, 3);
+    let opt = OptCfg::Sgd { lr: *rng.pick(&[0.05f32, 0.1, 0.01]), decay: if rng.bool() { Some(0.01) } else { None } };
+    let desc = format!("{} | {} | N{} B{} E{}", cfg.describe(), opt.describe(), n, batch, epochs);
+    let mut out = Out::new(desc.clone());
+    let params = match gen_params(&cfg, &mut rng, -0.8, 0.8) {
+        Ok(p) => p,
+        Err(_) => {
+            out.nontrivial = false;
+            return out;
+        }
+    };
+    let train = random_data(&mut rng, cfg.input, n, outputs, Obj::MSE, false);
+    let mk = || -> Result<Network, String> {
+        let mut net = build(&cfg, Some(&params))?;
+        net.set_objective(lib_obj(Obj::MSE), None);
+        net.set_optimizer(opt.build());
+        Ok(net)
+    };
+    let (mut a, mut b) = match (mk(), mk()) {
+        (Ok(a), Ok(b)) => (a, b),
+        _ => {
+            out.nontrivial = false;
+            out.count("split_run_networks_rejected_by_the_library", 1);
+            return out;
+        }
+    };
+    let (xr, tr) = (train.x_refs(), train.t_refs());
+    let (ra, _) = in_cached_pool(2, || guard(|| a.learn(&xr, &tr, None, batch, epochs as i32, None)));
+    let (rb, _) = in_cached_pool(2, || {
+        guard(|| {
+            let mut per_epoch: Vec<f64> = Vec::new();
+            for _ in 0..epochs {
+                let mut sum = 0.0f64;
+                let mut groups = 0usize;
+                for g in (0..n).collect::<Vec<_>>().chunks(batch) {
+                    let gx: Vec<&Tensor> = g.iter().map(|i| xr[*i]).collect();
+                    let gt: Vec<&Tensor> = g.iter().map(|i| tr[*i]).collect();
+                    let (tl, _, _) = b.learn(&gx, &gt, None, g.len(), 1, None);
+                    sum += tl[0] as f64;
+                    groups += 1;
+                }
+                per_epoch.push(sum / groups as f64);
+            }
+            per_epoch
+        })
+    });
+    let detail = || J::obj().set("case", J::s(&desc)).set("parameters", params_json(&params));
+    match (ra, rb) {
+        (Err(_), Err(_)) => {
+            out.nontrivial = false;
+            out.count("split_runs_where_both_variants_panic_(training_this_architecture_is_not_supported)", 1);
+        }
+        (Ok(_), Err(m)) | (Err(m), Ok(_)) => {
+            if m.contains("Loss is NaN") {
+                out.nontrivial = false;
+            } else {
+                out.viol("train:split-runs:one-variant-panics", format!("one learn() call vs one call per group: only one of them panics: {} [{}]", short(&m, 160), desc), detail());
+            }
+        }
+        (Ok((tl, _, _)), Ok(per_epoch)) => {
+            out.count("split_run_pairs_compared", 1);
+            for s in structure.iter() {
+                out.cover("split_run_structures", s.to_string());
+            }
+            let (pa, pb) = (get_params(&a), get_params(&b));
+            let fa: Vec<f32> = pa.iter().flat_map(|(_, v)| v.clone()).collect();
+            let fb: Vec<f32> = pb.iter().flat_map(|(_, v)| v.clone()).collect();
+            if fa.iter().any(|v| !v.is_finite()) {
+                out.nontrivial = false;
+                return out;
+            }
+            if let Some(k) = (0..fa.len()).find(|k| fa[*k].to_bits() != fb[*k].to_bits()) {
+                out.viol(
+                    "train:split-runs:weights",
+                    format!("one learn() call over {} groups x {} epochs leaves parameter {} = {:e}; one call per group leaves {:e} [{}]", (n + batch - 1) / batch, epochs, k, fa[k], fb[k], desc),
+                    detail(),
+                );
+            }
+            for e in 0..epochs.min(tl.len()) {
+                if (tl[e] as f64 - per_epoch[e]).abs() > 1e-5 * per_epoch[e].abs() + 1e-7 {
+                    out.viol("train:split-runs:epoch-loss", format!("epoch {}: reported training loss {:e}, mean over the groups' own losses {:e} [{}]", e + 1, tl[e], per_epoch[e], desc), detail());
+                    break;
+                }
+            }
+        }
+    }
+    out
+}
+
 impl Monitor for C04 {
     fn id(&self) -> &'static str {
         "C04"
     }
     fn gens(&self, tier: Tier) -> Vec<(&'static str, u64)> {
-        vec![("runs", tier.pick(21_000, 420_000)), ("exact_fit", tier.pick(6_000, 120_000)), ("big_batches", tier.pick(600, 12_000))]
+        vec![("runs", tier.pick(21_000, 420_000)), ("exact_fit", tier.pick(6_000, 120_000)), ("big_batches", tier.pick(600, 12_000)), ("split_runs", tier.pick(9_000, 180_000))]
     }
     fn rule(&self) -> &'static str {
-        "case i -> objective (i mod 7), optimizer kind (i/7 mod 5: SGD, SGDM, Adam, AdamW, RMSprop with random decay / dampening / momentum / centred), N in 1..23, B from {1,2,3,5,7,N-1,N,N+1,64} (so B=1, B not dividing N and B>N occur in every block of nine cases), E in 1..5, validation data in every second case, the objective gradient clamped in every fifth case, 6..12 epochs in every ninth, pools of 1..8 threads; random network of dense/conv/deconv/max-pool layers ending in a dense layer, pairwise different samples. (a) the hooked Forward/Update event log of the learn() call (and, in every third case, of a second learn() call on the same network, with another batch size and only a prefix of the samples) must match the trace grammar: per epoch the consecutive groups of B samples, each sample's forward pass exactly once and all before the group's single Update, Update step number = epoch index, then every validation sample once; nothing else. (b) a twin trainer recomputes the run: per-sample gradients from the library's own forward + hooked backward at the twin's weights, summed in sample order, one step of the documented update rule per group; final weights must agree within 1e-4 x (|w| + distance travelled) + 1e-6 and the per-epoch loss must equal the mean over groups of the mean per-sample loss. big_batches: the same two checks with N in {65,66,70,100,127..130,150,200,257} and B in {N, N-1, 64, 65, 70, 100, 128, 129, random 65..N} (groups larger than the library's parallel chunk of 64, mostly not a multiple of it), small networks. exact_fit: the same two checks on dense networks whose first layer is a ReLU layer with positive weights and negative bias followed by bias-free layers, with runs of samples that are fitted exactly (negative inputs, zero targets: loss 0, gradient 0) between ordinary samples, objectives AE / MAE / MSE: a group whose samples are all fitted exactly still receives its optimizer step (momentum, moment estimates and weight decay keep acting). Distinct = distinct (network, optimizer, N, B, E) descriptors."
+        "case i -> objective (i mod 7), optimizer kind (i/7 mod 5: SGD, SGDM, Adam, AdamW, RMSprop with random decay / dampening / momentum / centred), N in 1..23, B from {1,2,3,5,7,N-1,N,N+1,64} (so B=1, B not dividing N and B>N occur in every block of nine cases), E in 1..5, validation data in every second case, the objective gradient clamped in every fifth case, 6..12 epochs in every ninth, pools of 1..8 threads; random network of dense/conv/deconv/max-pool layers ending in a dense layer, pairwise different samples. (a) the hooked Forward/Update event log of the learn() call (and, in every third case, of a second learn() call on the same network, with another batch size and only a prefix of the samples) must match the trace grammar: per epoch the consecutive groups of B samples, each sample's forward pass exactly once and all before the group's single Update, Update step number = epoch index, then every validation sample once; nothing else. (b) a twin trainer recomputes the run: per-sample gradients from the library's own forward + hooked backward at the twin's weights, summed in sample order, one step of the documented update rule per group; final weights must agree within 1e-4 x (|w| + distance travelled) + 1e-6 and the per-epoch loss must equal the mean over groups of the mean per-sample loss. big_batches: the same two checks with N in {65,66,70,100,127..130,150,200,257} and B in {N, N-1, 64, 65, 70, 100, 128, 129, random 65..N} (groups larger than the library's parallel chunk of 64, mostly not a multiple of it), small networks. exact_fit: the same two checks on dense networks whose first layer is a ReLU layer with positive weights and negative bias followed by bias-free layers, with runs of samples that are fitted exactly (negative inputs, zero targets: loss 0, gradient 0) between ordinary samples, objectives AE / MAE / MSE: a group whose samples are all fitted exactly still receives its optimizer step (momentum, moment estimates and weight decay keep acting). split_runs: architectures the twin does not model (feedback blocks with and without bias, a skip or a loop connection), plain SGD with and without decay: one learn() call over G groups and E epochs must leave bit-identical weights to E*G learn() calls of one group each on an identically built network, and report the mean of those calls' losses per epoch (nothing is carried from one group to the next). Distinct = distinct (network, optimizer, N, B, E) descriptors."
     }
     fn assumptions(&self) -> Vec<&'static str> {
         vec![
             "event hooks sit at the entry of Network::forward and Network::update; rayon's collect() joins a group's tasks before the update, which is the happens-before the trace checker relies on",
             "the twin uses the library's own per-sample gradient (C01 decides whether that gradient is right)",
-            "feedback blocks are exercised by C10 (coupling) and are not part of the twin trainer",
+            "feedback blocks are exercised by C10 (coupling) and are not part of the twin trainer; they are covered by the split_runs equivalence instead",
         ]
     }
     fn run(&self, gen: &str, seed: u64, idx: u64, _tier: Tier) -> Out {
+        if gen == "split_runs" {
+            return split_runs(seed, idx);
+        }
         let mut rng = Rng::stream(seed, gen, idx);
         let exact = gen == "exact_fit";
         let out_big = std::cell::Cell::new(false);
@@ -535,6 +672,7 @@ impl Monitor for C04 {
         agg.require(agg.set_size("n_b_relation") == 4, "N/B relations not all exercised".into());
         agg.require(agg.set_size("optimizer_x_objective") == 35, format!("{} of 35 optimizer x objective combinations", agg.set_size("optimizer_x_objective")));
         agg.require(agg.count("exactly_fitted_groups_after_the_optimizer_state_may_be_non_zero") >= 500, "too few exactly fitted groups".into());
+        agg.require(agg.count("split_run_pairs_compared") >= 2000, "too few split-run pairs".into());
         agg.require(agg.count("runs_with_groups_larger_than_64_samples") >= 300, "too few runs with large groups".into());
         agg.require(agg.count("learn_runs") >= 1500, format!("{} learn runs judged", agg.count("learn_runs")));
     }
